@@ -238,6 +238,12 @@ def gen_c07(tier, rng):
         for a in MA:
             for b in (MA if big else MA[::2]):
                 out.append(case("fv", "c07", "m", nofuel(s + [a, b])))
+    # an append whose element copy/move throws adds nothing: the sequence afterwards is the sequence before
+    for s in S:
+        for name in ("eb", "ic", "im", "pb"):
+            for fuel in (0, 1):
+                for after in ("pb:0:9", "pop:0", "copy:1:0"):
+                    out.append(case("fv", "c07", "c", nofuel(s) + ";%s:0:5:%d;" % (name, fuel) + nofuel([after])))
     for _ in range(30000 if big else 4000):
         kind = "c" if rng.chance(2, 3) else "m"
         out.append(case("fv", "c07", kind, rand_seq(rng, 1 + rng.below(40), kind, False, False)))
